@@ -482,6 +482,20 @@ func (x *EvalCtx) evalCall(e *Expr) TV {
 		return TV{c.trimSpace(a.T), tyString}
 	case "foldl8":
 		return x.evalFold(e)
+	case "fileExists":
+		// exists(path): the ghost file-presence set
+		a := x.eval(e.Args[0])
+		cell, ok := c.ghostCell("fsExists")
+		if !ok {
+			efail("exists() needs `ghost fsExists pathset`")
+		}
+		return TV{Select(c.get(x.st, cell), a.T, SBool), tyBool}
+	case "pathJoin":
+		// filepath.Join(a, b) as the same uninterpreted function the code uses
+		a := x.eval(e.Args[0])
+		b := x.eval(e.Args[1])
+		c.declareFun("ext_path_filepath.Join_2", []Sort{SInt, SInt}, SInt)
+		return TV{Term{app("ext_path_filepath.Join_2", a.T, b.T), SInt}, tyString}
 	case "deref":
 		a := x.eval(e.Args[0])
 		pt, ok := a.Ty.Underlying().(*types.Pointer)
